@@ -62,6 +62,11 @@ type kvElection struct {
 	stopped    bool // a stop call has been made and Start has not been called since (guarded by mu)
 	stopping   int  // stop calls that have not returned yet (guarded by mu)
 
+	// acquireSem (capacity 1) serializes the acquisition attempts of this instance
+	// (Start, retry rounds, takeover opportunities): overlapping attempts could each
+	// publish a token, leaving a record that does not carry the running term's token.
+	acquireSem chan struct{}
+
 	onPromote func(ctx context.Context, token string)
 	onDemote  func()
 
@@ -103,6 +108,8 @@ func newKVElection(nc JetStreamProvider, cfg ElectionConfig) (*kvElection, error
 		nc:  nc,
 		kv:  kv,
 		key: cfg.Group,
+
+		acquireSem: make(chan struct{}, 1),
 	}
 
 	e.isLeader.Store(false)
@@ -330,6 +337,12 @@ func (e *kvElection) attemptAcquireWithRetry(ctx context.Context) {
 }
 
 func (e *kvElection) attemptAcquire() error {
+	// One attempt at a time.
+	if e.acquireSem != nil {
+		e.acquireSem <- struct{}{}
+		defer func() { <-e.acquireSem }()
+	}
+
 	// A leader has nothing to acquire (attempts started while following can still be
 	// pending when another one wins).
 	if e.IsLeader() {
